@@ -149,3 +149,19 @@ def ensure_built(check, targets=None):
     check.checker_cmds.append("make -C coq -j16 (coq_makefile, full .vo build, coqc 8.16.1)")
     check.obligation("coq development compiles (all proofs re-checked against regenerated Gen/)", ok, out[-6000:])
     return ok and not bad
+
+
+def printed_nested(out, ident):
+    """Parse 'ident = [[1; 2]; [3]]' (nested lists of integers, possibly with %Z suffixes and (-n) forms) into Python lists; or None."""
+    m = re.search(r"(?:^|\n)" + re.escape(ident) + r"\s*=\s*(.*?)\n\s*:\s", out, re.S)
+    if not m:
+        return None
+    body = " ".join(m.group(1).split())
+    body = re.sub(r"%\w+", "", body).replace("(", "").replace(")", "").replace(";", ",")
+    if not re.fullmatch(r"[\[\]\d,\s-]*", body):
+        return None
+    import json as _json
+    try:
+        return _json.loads(body)
+    except Exception:
+        return None
